@@ -27,6 +27,14 @@ CLF = ("var", "clf")
 MUTATORS = ("clf._update_weights", "clf.fit", "clf.set_params", "np.copyto", "clf.optimiser_.update_params")
 
 
+def _is_copy_of_elem(t, weights, calls):
+    """t is <element of weights>.copy() (the comprehension variable may have any name)"""
+    if not (isinstance(t, tuple) and t[:1] == ("callres",) and t[2].endswith(".copy") and not t[3]):
+        return False
+    ev = [e for e in calls if e[1] == t[1]]
+    return bool(ev) and ev[0][6] == ("attr", ("iter", weights, "comp"), "copy")
+
+
 def _decided(st, term):
     for c, b in st.pc:
         if c == term:
@@ -121,7 +129,13 @@ def path_obligations():
         st_alpha = [e for e in ev if e[0] == "store" and e[1] == CLF and e[2] == "alpha"]
         ob("step: clf.alpha is set to the step's alpha (geometric schedule starting at the model's alpha) before training",
            len(st_alpha) == 1 and st_alpha[0][3] == alpha_lv and st_alpha[0][4] == (L1,), {"stores": [fx.show(e[3]) for e in st_alpha]})
-        apps = {k: [e for e in calls if e[2] == k + ".append"] for k in ("alphas", "n_features", "geminis", "group_lasso_penalties")}
+        # the four history lists are identified by identity: positions 1..4 of the returned tuple (local names do not matter)
+        ret0 = st.ret
+        hist = {}
+        if isinstance(ret0, tuple) and ret0[0] == "tuple" and len(ret0[1]) == 5:
+            hist = dict(zip(("geminis", "group_lasso_penalties", "alphas", "n_features"), ret0[1][1:]))
+        apps = {k: [e for e in calls if isinstance(e[6], tuple) and e[6][0] == "attr" and e[6][2] == "append" and e[6][1] == hist.get(k)]
+                for k in ("alphas", "n_features", "geminis", "group_lasso_penalties")}
         x2 = [i for i, e in enumerate(ev) if e[0] == "loop-exit" and e[1] == L2]
         if broke:
             ob("NaN step: leaves the loop without recording anything (the four histories keep equal length)",
@@ -180,7 +194,7 @@ def path_obligations():
         if ok_ck:
             if bkeep:
                 okw = (isinstance(bw_lv, tuple) and bw_lv[0] == "comp" and bw_lv[1] == "ListComp" and bw_lv[3] == (weights,)
-                       and bw_lv[2][:1] == ("callres",) and bw_lv[2][2] == "w.copy")
+                       and _is_copy_of_elem(bw_lv[2], weights, calls))
                 ob("best fold: kept weights are copies (w.copy()) of the current weights, in _get_weights() order", okw, {"value": fx.show(bw_lv)})
             else:
                 okw = isinstance(bw_lv, tuple) and bw_lv[0] == "loopvar" and bw_lv[2] == "best_weights"
@@ -188,7 +202,7 @@ def path_obligations():
                 if okw:
                     i0 = bw_lv[3]
                     ob("init: best_weights starts as copies (w.copy()) of the weights of the unpenalised fit",
-                       isinstance(i0, tuple) and i0[0] == "comp" and i0[3] == (weights,) and i0[2][:1] == ("callres",) and i0[2][2] == "w.copy",
+                       isinstance(i0, tuple) and i0[0] == "comp" and i0[3] == (weights,) and _is_copy_of_elem(i0[2], weights, calls),
                        {"value": fx.show(i0)})
         ob("init: best score starts as the validation score of the unpenalised fit", best_lv[3] == init_best)
         # ---------------- inner loop
